@@ -13,10 +13,17 @@ regenerated facts. Ops:
 `<ced>` = structs.CEDowngrade (0|1). `<entry>` = `e` (empty log data) or `<first byte>:<hp>` where
 `<hp>`=1 iff the real handler panicked on the payload (oracle: the decode layer is not modelled).
 Outcomes: `h:<slot>:<handler>`, `hp:<slot>` (handler panicked), `ign`, `panic`, `panic-empty`.
+
+Every other operation is handed to the shared store engine (`CV/Engine/StoreCore.lean`: reset, kv,
+sc, sd, reg, dereg, reap, pqs, pqd, txn, dump, …): the C01 harness also replays histories of the
+modelled command families through `CV.Store.apply` — the functions `replicas_agree_store` and
+`rejected_leaves_state` are about — and compares every result and every full dump (lock-delay keys
+included) with the real FSM.
 -/
 import CV.Proto
 import CV.Fsm
 import CV.FsmFacts
+import CV.Engine.StoreCore
 namespace CV.Engine.C01
 open CV CV.Fsm
 
@@ -44,24 +51,30 @@ def tblLine : String :=
   let rows := (Consul.slotTable.map fun (b, _, h) => (b, h)).foldr insertSorted []
   encList (rows.map fun (b, h) => s!"{b}:{h}")
 
-def step (_ : Unit) (toks : List String) : Unit × String :=
+/-- the dispatch-layer operations; `none` = not one of them -/
+def dispatchStep (toks : List String) : Option String :=
   match toks with
-  | ["tbl"] => ((), tblLine)
+  | ["tbl"] => some tblLine
   | ["ap", ced, e] =>
     match decBool ced, parseEntry e with
-    | some ced, some buf => ((), showOutcome (dispatch Consul.table ced () () 0 buf).2)
-    | _, _ => ((), "bad-op")
+    | some ced, some buf => some (showOutcome (dispatch Consul.table ced () () 0 buf).2)
+    | _, _ => some "bad-op"
   | ["hist", ced, es] =>
     match decBool ced, (decList es).mapM parseEntry with
     | some ced, some bufs =>
       let log := bufs.zipIdx.map fun (b, i) => (i + 1, b)
       let t := run Consul.table ced (fun _ => ()) () log
-      ((), s!"n={t.results.length} crashed={encBool t.crashed} out={encList (t.results.map showOutcome)}")
-    | _, _ => ((), "bad-op")
+      some s!"n={t.results.length} crashed={encBool t.crashed} out={encList (t.results.map showOutcome)}"
+    | _, _ => some "bad-op"
   | ["cov", seen] =>
     let miss := Consul.missingTypes (decList seen)
-    ((), if miss.isEmpty then "ok" else s!"missing={encList miss}")
-  | _ => ((), "bad-op")
+    some (if miss.isEmpty then "ok" else s!"missing={encList miss}")
+  | _ => none
 
-def engine : Engine := { State := Unit, init := (), step := step }
+def step (s : Store.State) (toks : List String) : Store.State × String :=
+  match dispatchStep toks with
+  | some out => (s, out)
+  | none => StoreCore.step s toks
+
+def engine : Engine := { State := Store.State, init := Store.State.empty, step := step }
 end CV.Engine.C01
